@@ -60,7 +60,7 @@ class BehavioralRTLIRToVVisitorL5( BehavioralRTLIRToVVisitorL4 ):
   def visit_Index( s, node ):
     if isinstance( node.value.Type, rt.Array ) and \
        isinstance( node.value.Type.get_sub_type(), rt.Component ):
-      idx = s.visit( node.idx )
+      idx = s.visit_index_expr( node.idx )
       s._unpacked_q.appendleft(idx)
       value = s.visit( node.value )
       return value
